@@ -1649,7 +1649,7 @@ func (g *gen) next(x *ssa.Next, st State, reach string) {
 		cur := g.stGet(st, comp)
 		g.ctx.assume("(=> " + okc + " (not (select " + cur + " " + key + ")))")
 		domNow := "(select " + g.stGet(st, dom) + " " + iter.T + ")"
-		g.ctx.assume("(=> (and (not " + okc + ") (not (= " + iter.T + " 0))) (forall ((k " + ks + ")) (! (=> (and (select " + g.rangeDom0[rng] + " k) (select " + domNow + " k)) (select " + cur + " k)) :pattern ((select " + cur + " k)))))")
+		g.ctx.assume("(=> (and (not " + okc + ") (not (= " + iter.T + " 0))) (forall ((k " + ks + ")) (! (=> (and (select " + g.rangeDom0[rng] + " k) (select " + domNow + " k)) (select " + cur + " k)) :pattern ((select " + cur + " k)) :pattern ((select " + domNow + " k)))))")
 		g.stSet(st, comp, g.define("range_visited", "(Array "+ks+" Bool)", "(ite "+okc+" (store "+cur+" "+key+" true) "+cur+")"))
 	}
 }
